@@ -325,6 +325,51 @@ func FamilyUpdate(thorough bool) []*Conv {
 			Spec:        &Spec{Update: &u, Pairs: map[string]*PairSpec{"PFXIn→PFXOut": {Fields: map[string]*FieldSpec{"Keep": {Ignore: true}, "Only": {Ignore: true}}}}},
 		})
 	}
+	// *T -> U is generated only with useZeroValueOnPointerInconsistency - in update methods as everywhere else
+	for i, pv := range []struct{ name, in, out string }{
+		{"basic", "P *int", "P int"}, {"nested_unnamed", "S struct{ P *string }", "S struct{ P string }"}, {"slice_elem", "L []*int", "L []int"},
+	} {
+		n++
+		out = append(out, &Conv{
+			ID: "update/fail_pointer_to_value_without_flag_" + pv.name, Family: "update", Format: []string{"struct", "function", "variable"}[(n+i)%3], Solo: true,
+			Params: "source PFXIn, target *PFXOut", Results: "",
+			Decls:       "type PFXIn struct {\n\t" + pv.in + "\n\tK int\n}\ntype PFXOut struct {\n\t" + pv.out + "\n\tK int\n}\n",
+			MethodLines: []string{"update target"},
+			Spec:        &Spec{}, ExpectFail: true, FailNote: "*T -> U inside an update method without useZeroValueOnPointerInconsistency",
+		})
+	}
+	// nested unnamed structs are updated in place, member by member: a struct that is non-zero as a whole still has
+	// members that are zero - each member keeps its own guard below the struct-level one
+	for _, cats := range []int{2, 3, 6, 7} {
+		n++
+		u := &UpdateSpec{SkipBasic: cats&1 != 0, SkipStruct: cats&2 != 0, SkipNillable: cats&4 != 0}
+		var lines []string
+		if cats == 7 {
+			lines = []string{"update:ignoreZeroValueField"}
+		} else {
+			if u.SkipBasic {
+				lines = append(lines, "update:ignoreZeroValueField:basic")
+			}
+			if u.SkipStruct {
+				lines = append(lines, "update:ignoreZeroValueField:struct")
+			}
+			if u.SkipNillable {
+				lines = append(lines, "update:ignoreZeroValueField:nillable")
+			}
+		}
+		// (comparable: the struct-level guard compares it as a whole)
+		nested := "struct {\n\t\tA int\n\t\tB string\n\t\tP *int\n\t\tDeep struct {\n\t\t\tX int\n\t\t\tY *int\n\t\t}\n\t}"
+		out = append(out, &Conv{
+			ID:          fmt.Sprintf("update/nested_unnamed_struct/c%d", cats),
+			Family:      "update",
+			Format:      []string{"struct", "function", "variable"}[n%3],
+			Params:      "source PFXIn, target *PFXOut",
+			Results:     "",
+			Decls:       "type PFXIn struct {\n\tN " + nested + "\n\tK int\n}\ntype PFXOut struct {\n\tN " + nested + "\n\tK int\n\tKeep int\n}\n",
+			MethodLines: append([]string{"update target", "ignore Keep"}, lines...),
+			Spec:        &Spec{Update: u, Pairs: map[string]*PairSpec{"PFXIn→PFXOut": {Fields: map[string]*FieldSpec{"Keep": {Ignore: true}}}}},
+		})
+	}
 	// a field filled by a function without source parameter inside an update method (nothing to compare with zero)
 	for _, cats := range []int{0, 1, 7} {
 		n++
@@ -945,6 +990,14 @@ func FamilySameType(thorough bool) []*Conv {
 			add(shape{Src: pos.src, Tgt: pos.tgt, Name: fmt.Sprintf("addr_same_%s_%d", pos.name, i), Decls: []string{d}})
 		}
 		add(shape{Src: fmt.Sprintf("*PFXAd%d", k), Tgt: fmt.Sprintf("PFXAd%d", k), Name: fmt.Sprintf("deref_same_%d", i), Decls: []string{d}, NeedZero: true})
+	}
+	// two function-format converters in one output package that need a helper for the same pair: each gets the
+	// helper built with its own settings (the first, sorted by name, shares identical types - the second must not)
+	for _, first := range []string{"skipCopySameType", "ignoreMissing"} {
+		cv := shapeConv("sametype", shape{Src: "PFXV", Tgt: "PFXVT", Name: "two_function_converters_own_helpers_" + strings.ToLower(first),
+			Decls: []string{"type PFXLeaf struct {\n\tL []int\n\tP *int\n}\ntype PFXIn struct {\n\tLeaf PFXLeaf\n\tN int\n}\ntype PFXOut struct {\n\tLeaf PFXLeaf\n\tN int\n}\ntype PFXV struct{ In PFXIn }\ntype PFXVT struct{ In PFXOut }\ntype PFXW struct {\n\tIn PFXIn\n\tX int\n}\ntype PFXWT struct {\n\tIn PFXOut\n\tX int\n}\n\n// goverter:converter\n// goverter:output:format function\n// goverter:" + first + "\ntype APFXFirst interface {\n\tAPFXConv(source PFXW) PFXWT\n}"}}, "function", nil, nil)
+		cv.Solo = true
+		out = append(out, cv)
 	}
 	// targets of interface type: goverter has no rule for them; should one be accepted, the boxed value must not
 	// share memory with the source either (either outcome of generation is fine, sharing is not)
